@@ -19,7 +19,7 @@ func init() {
 		ID:          "C11",
 		Level:       "other",
 		Run:         runC11,
-		Explanation: "Totality by trap discharge (E-BOUNDS, a zone analysis: every index, slice, division, nil-map store, explicit panic and single-result type assertion in risc.Parse and the risc functions it reaches is proved safe from dominating guards, including the derived summary 'validateArgs returns nil => len(args)==expected'); instruction/label accounting by E-PATH/E-TERM on the line loop (one append per instruction line, pc advanced exactly once per appended instruction and never on label/blank/comment lines, label stored with the loop-carried pc and the line minus its colon); per-mnemonic decode (E-TABLE/E-TERM: each case constructs the type whose InstructionType is that mnemonic, operands bound through parseRegister / ParseInt(…,10,32) / parseOffsetReg with every error tested and returned, operand k flowing to the field that Run uses as RISC-V operand k); normalisation (ToLower on the mnemonic, TrimSpace on line and operands, lower-case case labels).",
+		Explanation: "Totality by trap discharge (E-BOUNDS, a zone analysis: every index, slice, division, nil-map store, explicit panic and single-result type assertion in risc.Parse and the risc functions it reaches is proved safe from dominating guards, including the derived summary 'validateArgs returns nil => len(args)==expected'); instruction/label accounting by E-PATH/E-TERM on the line loop (one append per instruction line, pc advanced exactly once per appended instruction and never on label/blank/comment lines, label stored with the loop-carried pc and the line minus its colon); per-mnemonic decode (E-TABLE/E-TERM: each case constructs the type whose InstructionType is that mnemonic, operands bound through parseRegister / ParseInt(…,10,32) / parseOffsetReg with every error tested and returned, operand k flowing to the field that Run uses as RISC-V operand k); normalisation (ToLower on the mnemonic, TrimSpace on line and operands, lower-case case labels). R11.9 every error a parsing helper returns is tested with the right polarity (err != nil) and leaves the function as an error.",
 		Assumptions: []string{
 			"strings, strconv and fmt functions are total",
 			"behaviour on duplicate labels is unspecified and not judged",
@@ -72,6 +72,8 @@ func runC11(r *Run) {
 	r.anchor("parser entry", "risc.Parse")
 	r.floor("R11.1", 120)
 	r.floor("R11.3", 45)
+	r.floor("R11.9", 140)
+	ruleParserErrorsPropagate(r, "R11.9")
 	r.floor("R11.8", 14)
 	ruleParseIntWidth(r, "R11.8")
 	r.floor("R11.4", 45)
